@@ -30,11 +30,12 @@ class WireSpec:
         self.tile = z3.Function(fresh_name("tile_" + tag), IntS, BytesS)
         self.off = z3.Function(fresh_name("off_" + tag), IntS, IntS)
         j = z3.Int("j!wire")
-        st.assume(self.tile(0) == z3.Empty(BytesS), self.off(0) == 0)
-        st.assume(z3.ForAll([j], z3.Implies(z3.And(0 <= j, j < self.n), self.tile(j + 1) == z3.Concat(self.tile(j), self.chunk(j))),
-                            patterns=[self.tile(j + 1)]))
-        st.assume(z3.ForAll([j], z3.Implies(z3.And(0 <= j, j < self.n), self.off(j + 1) == self.off(j) + 8 + z3.Length(self.vals[j])),
-                            patterns=[self.off(j + 1)]))
+        self.defs = [self.tile(0) == z3.Empty(BytesS), self.off(0) == 0,
+                     z3.ForAll([j], z3.Implies(z3.And(0 <= j, j < self.n), self.tile(j + 1) == z3.Concat(self.tile(j), self.chunk(j))),
+                               patterns=[self.tile(j + 1)]),
+                     z3.ForAll([j], z3.Implies(z3.And(0 <= j, j < self.n), self.off(j + 1) == self.off(j) + 8 + z3.Length(self.vals[j])),
+                               patterns=[self.off(j + 1)])]
+        st.assume(*self.defs)
 
     def chunk(self, j):
         hdr, _ranges = pack_term("!4sI", [ascii_enc(self.keys[j]), z3.Length(self.vals[j])])
@@ -134,7 +135,9 @@ class SendingMessageInit(Contract):
                                   st.get(s, "serializer_id").e == a["serializer_id"].e)),
                 ("flags-attr: caller bits kept, COMPRESSED iff compressed (CORR_ID is only in the header)", st.get(s, "flags").e == f1),
                 ("corr_id", st.get(s, "corr_id").e == corr),
-                ("all-annotation-ids-4-ascii", z3.BoolVal(True))]
+                ("every annotation id is 4 ascii characters and every value is shorter than 4 GB",
+                 z3.ForAll([z3.Int("i!encpost")], z3.Implies(z3.And(0 <= z3.Int("i!encpost"), z3.Int("i!encpost") < W.n), z3.And(
+                     z3.Length(W.keys[z3.Int("i!encpost")]) == 4, is_ascii_s(W.keys[z3.Int("i!encpost")]), z3.Length(W.vals[z3.Int("i!encpost")]) < 2 ** 32))))]
 
     def x_protocol(self, E, old, st, a, exc):
         # refused: too large (before anything is built) or a malformed annotation id (witness: the loop's ghost index)
@@ -180,6 +183,7 @@ class SendingMessageInit(Contract):
                 ("joined==tile(j)", ad.joined == W.tile(j)),
                 ("len(joined)==off(j)", z3.Length(ad.joined) == W.off(j)),
                 ("ids-so-far-4-ascii", z3.ForAll([i], z3.Implies(z3.And(0 <= i, i < j), z3.And(z3.Length(W.keys[i]) == 4, is_ascii_s(W.keys[i]))))),
+                ("values-so-far-shorter-than-4GB", z3.ForAll([i], z3.Implies(z3.And(0 <= i, i < j), z3.Length(W.vals[i]) < 2 ** 32))),
                 ("no-data-yet", z3.BoolVal(not st.has(a["self"], "data")))]
 
     def loop_modifies(self, k, E, st, a):
@@ -197,12 +201,16 @@ wpos = z3.Function("wpos", BytesS, IntS, IntS)   # spec function: offset of the 
 
 def assume_walk(st, P):
     """definition of wpos on payload P, and `P consists of bytes`"""
+    st.assume(*walk_defs(P))
+
+
+def walk_defs(P):
     k, x = z3.Ints("k!walk x!byte")
-    st.assume(wpos(P, 0) == 0)
-    st.assume(z3.ForAll([k], z3.Implies(k >= 0, wpos(P, k + 1) == wpos(P, k) + 8 + from_bytes_term(
-        simple_slice(P, wpos(P, k) + 4, wpos(P, k) + 8))), patterns=[wpos(P, k + 1)]))
-    # P consists of bytes (0..255), so every decoded chunk length is a natural number
-    st.assume(z3.ForAll([k], z3.Implies(k >= 0, wpos(P, k + 1) >= wpos(P, k) + 8), patterns=[wpos(P, k + 1)]))
+    return [wpos(P, 0) == 0,
+            z3.ForAll([k], z3.Implies(k >= 0, wpos(P, k + 1) == wpos(P, k) + 8 + from_bytes_term(
+                simple_slice(P, wpos(P, k) + 4, wpos(P, k) + 8))), patterns=[wpos(P, k + 1)]),
+            # P consists of bytes (0..255), so every decoded chunk length is a natural number
+            z3.ForAll([k], z3.Implies(k >= 0, wpos(P, k + 1) >= wpos(P, k) + 8), patterns=[wpos(P, k + 1)])]
 
 
 def chunk_facts(P, keys, vals, k):
@@ -283,6 +291,7 @@ class AddPayload(Contract):
         data = st.get(m, "data")
         return [("length-matches-header", z3.Length(P) == A + D),
                 ("chunks-end-exactly-at-annotations_size", wpos(P, n) == A),
+                ("annotation-count-is-natural", n >= 0),
                 ("every-chunk-decoded (chunk k = bytes wpos(k)..wpos(k+1), so the chunks tile [0, annotations_size) exactly)",
                  z3.ForAll([k], z3.Implies(z3.And(0 <= k, k < n), chunk_facts(P, keys, vals, k)))),
                 ("no-annotations-iff-size-0", (n == 0) == (A == 0)),
@@ -490,6 +499,8 @@ class RecvStub(Contract):
         m = st.new_obj("Pyro5.protocol.ReceivingMessage")
         ReceivingMessageInit.prepare_call(None, E, st, {"self": m}, None)
         st.set(m, "data", VBytes(fresh("msg_data", BytesS)))
+        # the message comes back with whatever annotations the stream carried: any number of entries (the postcondition says which)
+        st.set(st.get(m, "annotations"), "n", VInt(fresh("received_ann_n", IntS)))
         return m
 
     def _hdr(self, old, a):
@@ -516,6 +527,7 @@ class RecvStub(Contract):
                                           st.get(m, "annotations_size").e == asz, st.get(m, "corr_id").e == corr,
                                           st.get(m, "flags").e == flags - 2 * bit(flags, 1))),
                 ("chunks-end-exactly-at-annotations_size", wpos(P, n) == asz),
+                ("annotation-count-is-natural", n >= 0),
                 ("every-chunk-decoded", z3.ForAll([k], z3.Implies(z3.And(0 <= k, k < n), chunk_facts(P, keys, vals, k)))),
                 ("data", z3.If(comp, z3.And(zvalid(body), data.e == zdecompress(body)), data.e == body)),
                 ("field-ranges", z3.And(typ >= 0, typ < 256, ser >= 0, ser < 256, flags >= 0, flags < 65536, seq >= 0, seq < 65536,
